@@ -98,7 +98,7 @@ theorem plevel_step {n1 n2 k ts x e r1 r} (hk : k < 5) (h1 : PLevel n1 (k + 1) t
 /-- the loop level that would consume the token, if any. -/
 def bl : Tok → Option Nat
   | .op o => some o.plevel
-  | .post _ => some 6
+  | .post _ _ => some 6
   | _ => none
 
 /-- the leading token of `ts` is not consumed by the loop of any level ≥ `k`. -/
@@ -124,7 +124,7 @@ theorem ploop_stop {k : Nat} {e : Expr} {ts : List Tok}
     | op o =>
       have : ¬ o.plevel = k := by simpa [bl] using ht
       simp [parseLoop, this]
-    | post p =>
+    | post p fld =>
       have : ¬ k = 6 := by intro e; apply ht; simp [bl, e]
       simp [parseLoop, this]
     | lp => simp [parseLoop]
@@ -146,11 +146,28 @@ theorem ploop_step {n1 n2 k o acc x e ts r1 r} (ho : BinOp.plevel o = k)
   obtain ⟨f', rfl, hf'⟩ := succ_of_le hf
   simp [parseLoop, ho, h1 f' (by omega), h2 f' (by omega)]
 
-theorem ploop_post {n acc p e ts r} (h : PLoop n 6 (.post acc p) ts e r) :
-    PLoop (n + 1) 6 acc (.post p :: ts) e r := by
+theorem ploop_post {n acc p fld e ts r} (hlt : fld = true → startsLt ts = false)
+    (h : PLoop n 6 (.post acc p fld) ts e r) : PLoop (n + 1) 6 acc (.post p fld :: ts) e r := by
   intro f hf
   obtain ⟨f', rfl, hf'⟩ := succ_of_le hf
-  simp [parseLoop, h f' hf']
+  have : (fld && startsLt ts) = false := by
+    cases fld <;> simp_all
+  simp [parseLoop, h f' hf', this]
+
+/-- what follows does not turn a final member name into the start of type arguments. -/
+def okAfter (e : Expr) (rest : List Tok) : Prop := lastField e = true → startsLt rest = false
+
+theorem startsLt_of_stops0 {rest : List Tok} (h : ∀ t r b, rest = t :: r → bl t = some b → b < 0) :
+    startsLt rest = false := by
+  cases rest with
+  | nil => rfl
+  | cons t r =>
+    cases t <;> try rfl
+    rename_i o
+    have := h (.op o) r o.plevel rfl rfl
+    omega
+
+theorem startsLt_rp (T : List Tok) : startsLt (.rp :: T) = false := rfl
 
 theorem stopsAbove_mono {k k' : Nat} {ts : List Tok} (h : stopsAbove k ts) (hk : k ≤ k') :
     stopsAbove k' ts := fun t rest b ht hb => Nat.lt_of_lt_of_le (h t rest b ht hb) hk
@@ -191,17 +208,47 @@ theorem lift {n j : Nat} (hj : j ≤ 6) {ts : List Tok} {x : Expr} {r : List Tok
 theorem paren_append (ts T : List Tok) : paren ts ++ T = .lp :: (ts ++ .rp :: T) := by
   simp [paren]
 
-/-- restatement of the three printing cases of a binary expression. -/
+theorem shortcutOk_lt (r : Expr) : shortcutOk .lt r = false := by
+  cases r <;> simp [shortcutOk]
+
+/-- restatement of the printing cases of a binary expression. -/
 theorem printE_binary (o : BinOp) (l r : Expr) :
     printE (.binary o l r) =
       (if lParen o l then paren (printE l) else printE l) ++
         .op o :: (if rParen o l r then paren (printE r) else printE r) := by
   simp only [printE, lParen, rParen, sub]
-  by_cases h1 : l.prec = 4 + o.pprec
-  · simp [h1]
-  · by_cases h2 : r.prec = 4 + o.pprec ∧ shortcutOk o r = true
-    · simp [h1, h2]
-    · simp [h1, h2]
+  by_cases h0 : o = .lt ∧ endsMember l = true
+  · obtain ⟨rfl, hm⟩ := h0
+    by_cases h1 : l.prec = 4 + BinOp.lt.pprec
+    · simp [hm, h1]
+    · simp [hm, h1, shortcutOk_lt]
+  · by_cases h1 : l.prec = 4 + o.pprec
+    · simp [h0, h1]
+    · by_cases h2 : r.prec = 4 + o.pprec ∧ shortcutOk o r = true
+      · simp [h0, h1, h2]
+      · simp [h0, h1, h2]
+
+theorem endsMember_of_lastField (e : Expr) (h : lastField e = true) : endsMember e = true := by
+  induction e with
+  | atom a => simp [lastField] at h
+  | ifElse k => simp [lastField] at h
+  | matchE k => simp [lastField] at h
+  | post e p fld _ => simpa [lastField, endsMember] using h
+  | lambda k b ih => simp only [lastField] at h; simp only [endsMember]; exact ih h
+  | unary u a ih =>
+    simp only [lastField] at h
+    by_cases hp : needParen 2 true a = true
+    · simp [hp] at h
+    · simp only [hp] at h
+      simp only [endsMember, Bool.and_eq_true, decide_eq_true_eq]
+      refine ⟨?_, ih h⟩
+      simp [needParen] at hp; omega
+  | binary o l r _ ihr =>
+    simp only [lastField] at h
+    by_cases hp : rParen o l r = true
+    · simp [hp] at h
+    · simp only [hp] at h
+      simp only [endsMember]; exact ihr h
 
 theorem lvl_le6 (e : Expr) : e.lvl ≤ 6 := by
   cases e <;> simp [Expr.lvl]
@@ -239,7 +286,7 @@ theorem head_base (e : Expr) (h : RT e = true) (ho : e.operandOk = true) (hl : e
     headBase (printE e) := by
   induction e with
   | atom a => exact ⟨.atom a, [], rfl, .inr ⟨a, rfl⟩⟩
-  | post e p ih =>
+  | post e p fld ih =>
     simp only [RT, Bool.and_eq_true, Bool.or_eq_true, decide_eq_true_eq] at h
     simp only [printE, sub]
     by_cases hp : needParen 1 false e = true
@@ -257,7 +304,7 @@ theorem head_base (e : Expr) (h : RT e = true) (ho : e.operandOk = true) (hl : e
 theorem head_ok (e : Expr) (h : RT e = true) (ho : e.operandOk = true) : headOk (printE e) := by
   induction e with
   | atom a => exact headOk_of_base (head_base _ h ho rfl)
-  | post e p _ => exact headOk_of_base (head_base _ h ho rfl)
+  | post e p fld _ => exact headOk_of_base (head_base _ h ho rfl)
   | unary u e _ =>
     cases u
     · exact ⟨.bang, _, rfl, .inr (.inr (.inl rfl))⟩
@@ -268,9 +315,9 @@ theorem head_ok (e : Expr) (h : RT e = true) (ho : e.operandOk = true) : headOk 
     by_cases hp : lParen o l = true
     · simp only [hp, if_true]; exact headOk_append (headOk_of_base (headBase_paren _)) _
     · simp only [hp]
-      rcases h.1.2 with h2 | h2
+      rcases h.1.1.2 with h2 | h2
       · exact absurd h2 hp
-      · exact headOk_append (ihl h.1.1.1 h2.1) _
+      · exact headOk_append (ihl h.1.1.1.1 h2.1) _
   | ifElse k => simp [Expr.operandOk] at ho
   | matchE k => simp [Expr.operandOk] at ho
   | lambda k b _ => simp [Expr.operandOk] at ho
@@ -280,7 +327,7 @@ theorem head_ok (e : Expr) (h : RT e = true) (ho : e.operandOk = true) : headOk 
 /-- recursion budget sufficient for the printed form of `e` (linear in the number of tokens). -/
 def B : Expr → Nat
   | .atom _ => 4
-  | .post e _ => B e + 60
+  | .post e _ _ => B e + 60
   | .unary _ e => B e + 60
   | .binary _ l r => B l + B r + 120
   | .ifElse _ => 4
@@ -290,29 +337,29 @@ def B : Expr → Nat
 /-- conclusion of the main lemma for one expression. -/
 def MainConcl (e : Expr) : Prop :=
   (e.operandOk = false → ∀ rest, stopsAbove 0 rest → PTop (B e) (printE e ++ rest) e rest) ∧
-  (e.operandOk = true → e.lvl = 5 → ∀ rest, stopsAbove 6 rest →
+  (e.operandOk = true → e.lvl = 5 → ∀ rest, stopsAbove 6 rest → okAfter e rest →
     PLevel (B e) 5 (printE e ++ rest) e rest) ∧
-  (e.operandOk = true → e.lvl ≠ 5 → ∀ rest x r1 m, stopsAbove (e.lvl + 1) rest →
+  (e.operandOk = true → e.lvl ≠ 5 → ∀ rest x r1 m, stopsAbove (e.lvl + 1) rest → okAfter e rest →
     PLoop m e.lvl e rest x r1 → PLevel (B e + m) e.lvl (printE e ++ rest) x r1)
 
 /-- from the loop-invariant form to the plain form: at every level `k` not tighter than `e`'s
 own, with the loops of all levels ≥ `k` stopping at `rest`. -/
 theorem main_at {e : Expr} (hm : MainConcl e) (hrt : RT e = true) (ho : e.operandOk = true)
-    {k : Nat} (hk : k ≤ e.lvl) {rest : List Tok} (hs : stopsAbove k rest) :
+    {k : Nat} (hk : k ≤ e.lvl) {rest : List Tok} (hs : stopsAbove k rest) (hok : okAfter e rest) :
     PLevel (B e + 16) k (printE e ++ rest) e rest := by
   have h6 := lvl_le6 e
   by_cases h5 : e.lvl = 5
-  · have := hm.2.1 ho h5 rest (stopsAbove_mono hs (by omega))
+  · have := hm.2.1 ho h5 rest (stopsAbove_mono hs (by omega)) hok
     exact (lift (by omega) this (by omega) (5 - k) k (by omega) hs).mono (by omega)
   · have hl : PLoop 1 e.lvl e rest e rest := ploop_stop_of hs hk
-    have := hm.2.2 ho h5 rest e rest 1 (stopsAbove_mono hs (by omega)) hl
+    have := hm.2.2 ho h5 rest e rest 1 (stopsAbove_mono hs (by omega)) hok hl
     refine (lift h6 this (fun h => ?_) (e.lvl - k) k (by omega) hs).mono (by omega)
     exact startsBase_of_headBase (headBase_append (head_base e hrt ho h) rest)
 
 theorem main_top {e : Expr} (hm : MainConcl e) (hrt : RT e = true) {rest : List Tok}
     (hs : stopsAbove 0 rest) : PTop (B e + 20) (printE e ++ rest) e rest := by
   by_cases ho : e.operandOk = true
-  · have h0 := main_at hm hrt ho (Nat.zero_le _) hs
+  · have h0 := main_at hm hrt ho (Nat.zero_le _) hs (fun _ => startsLt_of_stops0 hs)
     exact (ptop_level h0 (notKw_of_headOk (headOk_append (head_ok e hrt ho) rest))).mono (by omega)
   · exact (hm.1 (by simpa using ho) rest hs).mono (by omega)
 
@@ -329,7 +376,7 @@ theorem main (e : Expr) (h : RT e = true) : MainConcl e := by
   induction e with
   | atom a =>
     refine ⟨fun ho => by simp [Expr.operandOk] at ho, fun _ h5 => by simp [Expr.lvl] at h5,
-      fun _ _ rest x r1 m _ hloop => ?_⟩
+      fun _ _ rest x r1 m _ _ hloop => ?_⟩
     simp only [printE, List.singleton_append, Expr.lvl] at hloop ⊢
     exact (plevel6 (Nat.le_refl 6) (pbase_atom a rest) hloop).mono (by simp only [B]; omega)
   | ifElse k =>
@@ -356,30 +403,31 @@ theorem main (e : Expr) (h : RT e = true) : MainConcl e := by
     have hnk : notKw (.lam k :: (printE body ++ rest)) := by
       intro k' r; constructor <;> intro he <;> cases he
     exact (ptop_level h0 hnk).mono (by simp only [B]; omega)
-  | post e p ih =>
+  | post e p fld ih =>
     simp only [RT, Bool.and_eq_true, Bool.or_eq_true, decide_eq_true_eq] at h
     have hme := ih h.1
     refine ⟨fun ho => by simp [Expr.operandOk] at ho, fun _ h5 => by simp [Expr.lvl] at h5,
-      fun _ _ rest x r1 m _ hloop => ?_⟩
+      fun _ _ rest x r1 m _ hok hloop => ?_⟩
     simp only [Expr.lvl] at hloop ⊢
-    have hL : PLoop (m + 1) 6 e (.post p :: rest) x r1 := ploop_post hloop
+    have hL : PLoop (m + 1) 6 e (.post p fld :: rest) x r1 :=
+      ploop_post (fun hf => hok (by simp [lastField, hf])) hloop
     simp only [printE, sub, List.append_assoc, List.singleton_append]
     by_cases hp : needParen 1 false e = true
     · simp only [hp, if_true, paren_append]
-      have hb := pbase_paren (main_top hme h.1 (stopsAbove_rp 0 (.post p :: rest)))
+      have hb := pbase_paren (main_top hme h.1 (stopsAbove_rp 0 (.post p fld :: rest)))
       exact (plevel6 (Nat.le_refl 6) hb hL).mono (by simp only [B]; omega)
     · simp only [hp]
       rcases h.2 with h2 | h2
       · exact absurd h2 hp
       · have hl6 : e.lvl = 6 := by have := lvl_le6 e; omega
-        have := hme.2.2 h2.1 (by omega) (.post p :: rest) x r1 (m + 1) (by rw [hl6]; exact stopsAbove_7 _)
-          (by rw [hl6]; exact hL)
+        have := hme.2.2 h2.1 (by omega) (.post p fld :: rest) x r1 (m + 1)
+          (by rw [hl6]; exact stopsAbove_7 _) (fun _ => rfl) (by rw [hl6]; exact hL)
         rw [hl6] at this
         exact this.mono (by simp only [B]; omega)
   | unary u a iha =>
     simp only [RT, Bool.and_eq_true, Bool.or_eq_true, decide_eq_true_eq] at h
     have hma := iha h.1
-    refine ⟨fun ho => by simp [Expr.operandOk] at ho, fun _ _ rest hs => ?_,
+    refine ⟨fun ho => by simp [Expr.operandOk] at ho, fun _ _ rest hs hok => ?_,
       fun _ h5 => by simp [Expr.lvl] at h5⟩
     have hb : PLevel (B a + 40) 6 (sub 2 true a (printE a) ++ rest) a rest := by
       simp only [sub]
@@ -390,7 +438,8 @@ theorem main (e : Expr) (h : RT e = true) : MainConcl e := by
         rcases h.2 with h2 | h2
         · exact absurd h2 hp
         · have hl6 : a.lvl = 6 := by have := lvl_le6 a; omega
-          have := hma.2.2 h2.1 (by omega) rest a rest 1 (by rw [hl6]; exact stopsAbove_7 _)
+          have hoka : okAfter a rest := fun hf => hok (by simp [lastField, hp, hf])
+          have := hma.2.2 h2.1 (by omega) rest a rest 1 (by rw [hl6]; exact stopsAbove_7 _) hoka
             (by rw [hl6]; exact ploop_stop_of hs (Nat.le_refl 6))
           rw [hl6] at this
           exact this.mono (by omega)
@@ -399,13 +448,14 @@ theorem main (e : Expr) (h : RT e = true) : MainConcl e := by
     | not => exact (plevel5 (pun_not hb)).mono (by simp only [B]; omega)
     | neg => exact (plevel5 (pun_neg hb)).mono (by simp only [B]; omega)
   | binary o l r ihl ihr =>
-    simp only [RT, Bool.and_eq_true, Bool.or_eq_true, decide_eq_true_eq] at h
-    obtain ⟨⟨⟨hl, hr⟩, hlb⟩, hrb⟩ := h
+    simp only [RT, Bool.and_eq_true, Bool.or_eq_true, decide_eq_true_eq, Bool.not_eq_true',
+      Bool.and_eq_false_iff, beq_eq_false_iff_ne, ne_eq, Bool.not_eq_false'] at h
+    obtain ⟨⟨⟨⟨hl, hr⟩, hlb⟩, hrb⟩, hlt⟩ := h
     have hml := ihl hl
     have hmr := ihr hr
     have hj4 : o.plevel ≤ 4 := plevel_le4 o
     refine ⟨fun ho => by simp [Expr.operandOk] at ho,
-      fun _ h5 => by simp [Expr.lvl] at h5; omega, fun _ _ rest x r1 m hs hloop => ?_⟩
+      fun _ h5 => by simp [Expr.lvl] at h5; omega, fun _ _ rest x r1 m hs hok hloop => ?_⟩
     simp only [Expr.lvl] at hs hloop ⊢
     rw [printE_binary, List.append_assoc, List.cons_append]
     -- right operand
@@ -417,7 +467,8 @@ theorem main (e : Expr) (h : RT e = true) : MainConcl e := by
       · simp only [hp]
         rcases hrb with h2 | h2
         · exact absurd h2 hp
-        · exact (main_at hmr hr h2.1 (by omega) hs).mono (by omega)
+        · have hokr : okAfter r rest := fun hf => hok (by simp [lastField, hp, hf])
+          exact (main_at hmr hr h2.1 (by omega) hs hokr).mono (by omega)
     have hL := ploop_step (acc := l) rfl hR hloop
     have hso : stopsAbove (o.plevel + 1)
         (.op o :: ((if rParen o l r then paren (printE r) else printE r) ++ rest)) :=
@@ -425,15 +476,25 @@ theorem main (e : Expr) (h : RT e = true) : MainConcl e := by
     -- left operand
     by_cases hp : lParen o l = true
     · simp only [hp, if_true]
-      exact (plevel_step (by omega) (operand_paren hml hl (by omega) hso) hL).mono (by simp only [B]; omega)
+      exact (plevel_step (by omega) (operand_paren hml hl (by omega) hso) hL).mono
+        (by simp only [B]; omega)
     · simp only [hp]
+      have hokl : okAfter l
+          (.op o :: ((if rParen o l r then paren (printE r) else printE r) ++ rest)) := by
+        intro hf
+        rcases hlt with h1 | h1
+        · rcases h1 with h1 | h1
+          · cases o <;> first | rfl | exact absurd rfl h1
+          · exact absurd h1 hp
+        · rw [hf] at h1; cases h1
       rcases hlb with h2 | h2
       · exact absurd h2 hp
       · by_cases heq : l.lvl = o.plevel
-        · have := hml.2.2 h2.1 (by omega) _ x r1 _ (by rw [heq]; exact hso) (by rw [heq]; exact hL)
+        · have := hml.2.2 h2.1 (by omega) _ x r1 _ (by rw [heq]; exact hso) hokl
+            (by rw [heq]; exact hL)
           rw [heq] at this
           exact this.mono (by simp only [B]; omega)
-        · exact (plevel_step (by omega) (main_at hml hl h2.1 (by omega) hso) hL).mono
+        · exact (plevel_step (by omega) (main_at hml hl h2.1 (by omega) hso hokl) hL).mono
             (by simp only [B]; omega)
 
 /-! ### the budget of `parseE` suffices -/
@@ -493,7 +554,7 @@ theorem mono_all : ∀ f, MonoAt f := by
         | bang => rw [parseTop] at h ⊢ <;> first | exact hl _ _ _ h | (intro _ _ he; cases he)
         | op o => rw [parseTop] at h ⊢ <;> first | exact hl _ _ _ h | (intro _ _ he; cases he)
         | atom a => rw [parseTop] at h ⊢ <;> first | exact hl _ _ _ h | (intro _ _ he; cases he)
-        | post a => rw [parseTop] at h ⊢ <;> first | exact hl _ _ _ h | (intro _ _ he; cases he)
+        | post a fld => rw [parseTop] at h ⊢ <;> first | exact hl _ _ _ h | (intro _ _ he; cases he)
         | lam a => rw [parseTop] at h ⊢ <;> first | exact hl _ _ _ h | (intro _ _ he; cases he)
     · intro ts r h
       cases ts with
@@ -514,7 +575,7 @@ theorem mono_all : ∀ f, MonoAt f := by
         | rp => simp [parseBase] at h
         | bang => simp [parseBase] at h
         | op o => simp [parseBase] at h
-        | post a => simp [parseBase] at h
+        | post a fld => simp [parseBase] at h
         | kwIf a => simp [parseBase] at h
         | kwMatch a => simp [parseBase] at h
     · intro ts r h
@@ -540,7 +601,7 @@ theorem mono_all : ∀ f, MonoAt f := by
         | atom a => simp only [parseUnary] at h ⊢; exact hl _ _ _ h
         | lp => simp only [parseUnary] at h ⊢; exact hl _ _ _ h
         | rp => simp only [parseUnary] at h ⊢; exact hl _ _ _ h
-        | post a => simp only [parseUnary] at h ⊢; exact hl _ _ _ h
+        | post a fld => simp only [parseUnary] at h ⊢; exact hl _ _ _ h
         | kwIf a => simp only [parseUnary] at h ⊢; exact hl _ _ _ h
         | kwMatch a => simp only [parseUnary] at h ⊢; exact hl _ _ _ h
         | lam a => simp only [parseUnary] at h ⊢; exact hl _ _ _ h
@@ -580,10 +641,13 @@ theorem mono_all : ∀ f, MonoAt f := by
               simp only [h0] at h
               exact hp _ _ _ _ h
           · simpa [ho] using h
-        | post p =>
+        | post p fld =>
           simp only [parseLoop] at h ⊢
           by_cases hk : k = 6
-          · simp only [hk, if_true] at h ⊢; exact hp _ _ _ _ h
+          · simp only [hk, if_true] at h ⊢
+            by_cases hc : (fld && startsLt ts) = true
+            · simp [hc] at h
+            · simp only [hc] at h ⊢; exact hp _ _ _ _ h
           · simpa [hk] using h
         | atom a => simpa [parseLoop] using h
         | lp => simpa [parseLoop] using h
@@ -645,7 +709,7 @@ theorem ext_all : ∀ f, ExtAt f := by
         | bang => rw [parseTop] at h; rw [List.cons_append, parseTop]; exact hl _ _ _ _ h; all_goals (intro _ _ he; cases he)
         | op o => rw [parseTop] at h; rw [List.cons_append, parseTop]; exact hl _ _ _ _ h; all_goals (intro _ _ he; cases he)
         | atom a => rw [parseTop] at h; rw [List.cons_append, parseTop]; exact hl _ _ _ _ h; all_goals (intro _ _ he; cases he)
-        | post a => rw [parseTop] at h; rw [List.cons_append, parseTop]; exact hl _ _ _ _ h; all_goals (intro _ _ he; cases he)
+        | post a fld => rw [parseTop] at h; rw [List.cons_append, parseTop]; exact hl _ _ _ _ h; all_goals (intro _ _ he; cases he)
         | lam a => rw [parseTop] at h; rw [List.cons_append, parseTop]; exact hl _ _ _ _ h; all_goals (intro _ _ he; cases he)
     · intro ts e r h
       cases ts with
@@ -678,7 +742,7 @@ theorem ext_all : ∀ f, ExtAt f := by
         | rp => simp [parseBase] at h
         | bang => simp [parseBase] at h
         | op o => simp [parseBase] at h
-        | post a => simp [parseBase] at h
+        | post a fld => simp [parseBase] at h
         | kwIf a => simp [parseBase] at h
         | kwMatch a => simp [parseBase] at h
     · intro ts e r h
@@ -719,7 +783,7 @@ theorem ext_all : ∀ f, ExtAt f := by
         | atom a => simp only [parseUnary, List.cons_append] at h ⊢; exact hl _ _ _ _ h
         | lp => simp only [parseUnary, List.cons_append] at h ⊢; exact hl _ _ _ _ h
         | rp => simp only [parseUnary, List.cons_append] at h ⊢; exact hl _ _ _ _ h
-        | post a => simp only [parseUnary, List.cons_append] at h ⊢; exact hl _ _ _ _ h
+        | post a fld => simp only [parseUnary, List.cons_append] at h ⊢; exact hl _ _ _ _ h
         | kwIf a => simp only [parseUnary, List.cons_append] at h ⊢; exact hl _ _ _ _ h
         | kwMatch a => simp only [parseUnary, List.cons_append] at h ⊢; exact hl _ _ _ _ h
         | lam a => simp only [parseUnary, List.cons_append] at h ⊢; exact hl _ _ _ _ h
@@ -765,10 +829,20 @@ theorem ext_all : ∀ f, ExtAt f := by
               exact hp _ _ _ _ _ h
           · simp only [ho, if_false, Option.some.injEq, Prod.mk.injEq] at h ⊢
             exact ⟨h.1, by rw [← h.2]; rfl⟩
-        | post p =>
+        | post p fld =>
           simp only [parseLoop, List.cons_append] at h ⊢
           by_cases hk : k = 6
-          · simp only [hk, if_true] at h ⊢; exact hp _ _ _ _ _ h
+          · simp only [hk, if_true] at h ⊢
+            have hlt : startsLt (ts ++ [.rp]) = startsLt ts := by
+              cases ts with
+              | nil => rfl
+              | cons t ts' =>
+                cases t <;> try rfl
+                rename_i o; cases o <;> rfl
+            rw [hlt]
+            by_cases hc : (fld && startsLt ts) = true
+            · simp [hc] at h
+            · simp only [hc] at h ⊢; exact hp _ _ _ _ _ h
           · simp only [hk, if_false, Option.some.injEq, Prod.mk.injEq] at h ⊢
             exact ⟨h.1, by rw [← h.2]; rfl⟩
         | atom x => simp only [parseLoop, Option.some.injEq, Prod.mk.injEq, List.cons_append] at h ⊢; exact ⟨h.1, by rw [← h.2]; rfl⟩
